@@ -38,34 +38,35 @@ Ranges == { <<-1, 1>>, <<0, 1>>, <<-2, -1>>, <<0, 0>>, <<-1, 0>> }
 TrSet == { Tr(<<0,0,0>>, <<0,1,0, -1,0,0, 0,0,1>>), Tr(<<1,0,0>>, IdM), Tr(<<0,0,0>>, <<-1,0,0, 0,-1,0, 0,0,1>>),
            Tr(<<0,1,0>>, <<0,0,1, 1,0,0, 0,1,0>>) }
 
-VARIABLES pc, base, c0, first, ranges, arr, ftr, ctr, latopt, flip, compl
-vars == <<pc, base, c0, first, ranges, arr, ftr, ctr, latopt, flip, compl>>
+VARIABLES pc, base, c0, first, ranges, arr, ftr, ctr, latopt, flip, compl, ltr
+vars == <<pc, base, c0, first, ranges, arr, ftr, ctr, latopt, flip, compl, ltr>>
 Init == /\ pc = "cell" /\ base = << <<2,0,0>> >> /\ c0 = <<0,0,0>> /\ first = <<1>> /\ ranges = <<>>
         /\ arr = <<>> /\ ftr = [has |-> FALSE, tr |-> NoTr] /\ ctr = [has |-> FALSE, tr |-> NoTr] /\ latopt = FALSE
-        /\ flip = <<>> /\ compl = FALSE
+        /\ flip = <<>> /\ compl = FALSE /\ ltr = [has |-> FALSE, tr |-> NoTr]
 
 (* first[d] = 1: the plane through c0 + a_d/2 is listed first; -1: the other one. *)
 (* One small choice per step (TLC -simulate enumerates all successors of a step).  *)
 Cell == /\ pc = "cell"
         /\ \E b \in Bases, c \in C0s : base' = b /\ c0' = c
         /\ first' = <<>> /\ ranges' = <<>> /\ arr' = <<>> /\ flip' = <<>> /\ pc' = "orient"
-        /\ UNCHANGED <<ftr, ctr, latopt, compl>>
+        /\ UNCHANGED <<ftr, ctr, latopt, compl, ltr>>
 Orient == /\ pc = "orient" /\ Len(first) < Len(base)
           /\ \E f \in {-1, 1}, r \in Ranges, g \in {<<1, 1>>, <<1, -1>>, <<-1, 1>>} :
                 first' = Append(first, f) /\ ranges' = Append(ranges, r) /\ flip' = Append(flip, g)
-          /\ UNCHANGED <<pc, base, c0, arr, ftr, ctr, latopt, compl>>
+          /\ UNCHANGED <<pc, base, c0, arr, ftr, ctr, latopt, compl, ltr>>
 Trs == /\ pc = "orient" /\ Len(first) = Len(base)
        /\ \E ft \in { [has |-> FALSE, tr |-> NoTr] } \cup { [has |-> TRUE, tr |-> t] : t \in TrSet },
              ct \in { [has |-> FALSE, tr |-> NoTr] } \cup { [has |-> TRUE, tr |-> t] : t \in TrSet },
-             lo \in BOOLEAN, cp \in BOOLEAN :
-            ftr' = ft /\ ctr' = ct /\ latopt' = lo /\ compl' = cp
+             lo \in BOOLEAN, cp \in BOOLEAN,
+             lt \in { [has |-> FALSE, tr |-> NoTr] } \cup { [has |-> TRUE, tr |-> t] : t \in TrSet } :
+            ftr' = ft /\ ctr' = ct /\ latopt' = lo /\ compl' = cp /\ ltr' = lt
        /\ pc' = "fill" /\ UNCHANGED <<base, c0, first, ranges, arr, flip>>
 Size == LET RECURSIVE Pr(_) Pr(d) == IF d = 0 THEN 1 ELSE (ranges[d][2] - ranges[d][1] + 1) * Pr(d - 1) IN Pr(Len(ranges))
 Fill == /\ pc = "fill" /\ Len(arr) < Size
         /\ \E u \in IF latopt THEN (IF arr = <<>> THEN {2, 3} ELSE {arr[1]}) ELSE {0, 1, 2, 3} : arr' = Append(arr, u)
-        /\ UNCHANGED <<pc, base, c0, first, ranges, ftr, ctr, latopt, flip, compl>>
+        /\ UNCHANGED <<pc, base, c0, first, ranges, ftr, ctr, latopt, flip, compl, ltr>>
 Done == /\ pc = "fill" /\ Len(arr) = Size /\ pc' = "emit"
-        /\ UNCHANGED <<base, c0, first, ranges, arr, ftr, ctr, latopt, flip, compl>>
+        /\ UNCHANGED <<base, c0, first, ranges, arr, ftr, ctr, latopt, flip, compl, ltr>>
 
 (* the planes: surface number 100 + 2d-1 through c0 + a_d/2, 100 + 2d through c0 - a_d/2 *)
 N == Normals(base)
@@ -82,7 +83,8 @@ Leaf(d, s) == LET n == 100 + 2*d - (IF s = 1 THEN 1 ELSE 0)
               IN <<"S", IF s * Det(d) * G(d, s) > 0 THEN -n ELSE n, 0>>
 CellGeom == <<"*">> \o [i \in 1..(2 * Len(base)) |->
                           LET d == (i + 1) \div 2  s == IF i % 2 = 1 THEN first[d] ELSE -first[d] IN Leaf(d, s)]
-LVecs == [d \in 1..Len(base) |-> Scale(2 * first[d], base[d])]          \* doubled, positive index direction
+(* the cell's own TRCL turns the whole lattice: the base vectors are turned with it *)
+LVecs == [d \in 1..Len(base) |-> VecToMain(ltr.tr, Scale(2 * first[d], base[d]))]   \* doubled, positive index direction
 
 (* design-level property of the construction (L1, L2) *)
 LatticeVecsOK ==
@@ -99,7 +101,7 @@ PlainCell(n, geom, u, mat) ==
    lranges |-> <<>>, lunivs |-> <<>>, lvecs |-> <<>>, latopt |-> FALSE]
 Deck ==
   LET lc == [PlainCell(10, CellGeom, 1, 3) EXCEPT !.lat = 1, !.lranges = ranges, !.lunivs = arr, !.lvecs = LVecs,
-                                                   !.hasftr = ftr.has, !.ftr = ftr.tr, !.latopt = latopt,
+                                                   !.hasftr = ftr.has, !.ftr = ftr.tr, !.latopt = latopt, !.hastrcl = ltr.has, !.trcl = ltr.tr,
                                                    !.fill = IF latopt THEN arr[1] ELSE 0]
       world == << [PlainCell(1, S(-1), 0, 0) EXCEPT !.fill = 1, !.hasftr = ctr.has, !.ftr = ctr.tr],
                   [PlainCell(2, S(1), 0, 0) EXCEPT !.imp = 0] >>
@@ -112,6 +114,6 @@ Deck ==
   IN [cells |-> world \o <<lc>> \o cc \o u2 \o u3,
       surfs |-> << Card(1, "so", <<6>>), Card(21, "px", <<0>>), Card(22, "py", <<0>>), Card(23, "pz", <<0>>) >> \o planes]
 Emit == pc = "emit" /\ PrintT(ToJson(Deck)) /\ pc' = "done"
-        /\ UNCHANGED <<base, c0, first, ranges, arr, ftr, ctr, latopt, flip, compl>>
+        /\ UNCHANGED <<base, c0, first, ranges, arr, ftr, ctr, latopt, flip, compl, ltr>>
 Next == Cell \/ Orient \/ Trs \/ Fill \/ Done \/ Emit
 =============================================================================
